@@ -9,6 +9,9 @@
 
 namespace scn {
 
+// live heap arrays (new[] / delete[]), bumped by the check binary's replaced operators: suspend_point is the only user
+inline std::atomic<long> g_arrays_live{0};
+
 // a coroutine that counts its resumptions and never finishes; destroyed explicitly by the harness
 struct probe {
     struct promise_type {
@@ -31,10 +34,10 @@ inline probe make_probe(int id, int *counter, probe_log *log) {
 
 enum {
     SP_NEW_EMPTY = 0, SP_NEW_HANDLE, SP_ADD_HANDLE, SP_MERGE, SP_MOVE_CONSTRUCT, SP_MOVE_ASSIGN, SP_POP, SP_CLEAR, SP_DESTROY,
-    SP_AWAIT, SP_TYPED, SP_PAUSE, SP_ADD_MANY, SP_NOPS
+    SP_AWAIT, SP_TYPED, SP_PAUSE, SP_ADD_MANY, SP_POP_ALL, SP_NOPS
 };
 inline const char *spo_name(int o) {
-    static const char *n[] = {"new", "new(h)", "<<h", "<<sp", "move-construct", "move-assign", "pop", "clear", "destroy", "co_await", "typed", "pause", "<<h*k"};
+    static const char *n[] = {"new", "new(h)", "<<h", "<<sp", "move-construct", "move-assign", "pop", "clear", "destroy", "co_await", "typed", "pause", "<<h*k", "pop-all"};
     return n[o];
 }
 struct sp_op { int op; int a; int b; int k; };
@@ -147,6 +150,21 @@ inline void sp_apply(sp_world &W, const sp_op &op) {
         W.expect[hid]++;
         break;
     }
+    case SP_POP_ALL: { // drains the suspend point through pop(); the emptied (possibly heap backed) object stays alive
+        if (!A) break;
+        for (int guard = 0; guard < 100; guard++) {
+            std::coroutine_handle<> h = A->pop();
+            if (h == std::noop_coroutine()) { if (!W.model[op.a].empty()) W.err = "pop() reported empty although handles are stored"; break; }
+            int found = -1;
+            for (size_t i = 0; i < W.model[op.a].size(); i++) if (W.probes[W.model[op.a][i]].h.address() == h.address()) found = (int)i;
+            if (found < 0) { W.err = "pop() returned a handle the suspend point did not hold"; break; }
+            int hid = W.model[op.a][(size_t)found];
+            W.model[op.a].erase(W.model[op.a].begin() + found);
+            h.resume();
+            W.expect[hid]++;
+        }
+        break;
+    }
     case SP_CLEAR:
         if (!A) break;
         A->clear();
@@ -199,6 +217,7 @@ inline cocls::async<void> sp_driver(sp_world &W, const std::vector<sp_op> &ops, 
 }
 
 inline std::string run_sp_history(const std::vector<sp_op> &ops, bool coro_mode, std::string &trace) {
+    long arrays0 = g_arrays_live.load();
     auto W = std::make_unique<sp_world>();
     W->coro_mode = coro_mode;
     if (!coro_mode) {
@@ -219,6 +238,7 @@ inline std::string run_sp_history(const std::vector<sp_op> &ops, bool coro_mode,
         for (int i = 0; i < sp_world::NOBJ; i++) if (W->obj[i]) { W->obj[i].reset(); bool cm = W->coro_mode; W->coro_mode = false; W->flush_model(W->model[i]); W->coro_mode = cm; }
         W->check("final destruction");
         for (int h = 0; h < W->nh && W->err.empty(); h++) if (W->counter[h] > 1) W->err = "handle resumed twice";
+        if (W->err.empty() && g_arrays_live.load() != arrays0) W->err = "heap array of a suspend point leaked or released twice (new[]/delete[] balance " + std::to_string(g_arrays_live.load() - arrays0) + ")";
     }
     return W->err;
 }
@@ -240,7 +260,7 @@ inline void suspend_point_history(const vf::opts &o, vf::report &R, uint64_t his
             if (x < 8) op.op = SP_NEW_EMPTY; else if (x < 16) op.op = SP_NEW_HANDLE; else if (x < 34) op.op = SP_ADD_HANDLE;
             else if (x < 44) { op.op = SP_ADD_MANY; op.k = sizes[r.below(12)]; }
             else if (x < 54) op.op = SP_MERGE; else if (x < 60) op.op = SP_MOVE_CONSTRUCT; else if (x < 66) op.op = SP_MOVE_ASSIGN;
-            else if (x < 76) op.op = SP_POP; else if (x < 82) op.op = SP_CLEAR; else if (x < 88) op.op = SP_DESTROY;
+            else if (x < 72) op.op = SP_POP; else if (x < 76) op.op = SP_POP_ALL; else if (x < 82) op.op = SP_CLEAR; else if (x < 88) op.op = SP_DESTROY;
             else if (x < 93) op.op = SP_AWAIT; else if (x < 97) op.op = SP_TYPED; else op.op = SP_PAUSE;
             ops.push_back(op);
         }
@@ -258,8 +278,8 @@ inline void suspend_point_history(const vf::opts &o, vf::report &R, uint64_t his
 // complete enumeration: sequences of length <= maxlen over 2 objects (both alive, empty at start)
 inline void suspend_point_exhaustive(const vf::opts &o, vf::report &R, int maxlen) {
     std::vector<sp_op> alphabet = {
-        {SP_ADD_HANDLE, 0, 0, 0}, {SP_ADD_HANDLE, 1, 0, 0}, {SP_ADD_MANY, 0, 0, 3}, {SP_MERGE, 0, 1, 0}, {SP_MERGE, 1, 0, 0}, {SP_MOVE_ASSIGN, 0, 1, 0},
-        {SP_POP, 0, 0, 0}, {SP_POP, 1, 0, 0}, {SP_CLEAR, 0, 0, 0}, {SP_MOVE_CONSTRUCT, 2, 0, 0}, {SP_DESTROY, 2, 0, 0}, {SP_MOVE_CONSTRUCT, 0, 1, 0}, {SP_AWAIT, 0, 0, 0}};
+        {SP_ADD_HANDLE, 0, 0, 0}, {SP_ADD_HANDLE, 1, 0, 0}, {SP_ADD_MANY, 0, 0, 4}, {SP_MERGE, 0, 1, 0}, {SP_MERGE, 1, 0, 0}, {SP_MOVE_ASSIGN, 0, 1, 0},
+        {SP_POP, 0, 0, 0}, {SP_POP_ALL, 0, 0, 0}, {SP_POP, 1, 0, 0}, {SP_CLEAR, 0, 0, 0}, {SP_MOVE_CONSTRUCT, 2, 0, 0}, {SP_DESTROY, 2, 0, 0}, {SP_MOVE_CONSTRUCT, 0, 1, 0}, {SP_AWAIT, 0, 0, 0}};
     uint64_t total = 0;
     const size_t A = alphabet.size();
     for (int mode = 0; mode < 2; mode++)
